@@ -26,3 +26,8 @@ pub fn snapshot(handle: NodeHandle) -> Option<(usize, usize, usize, bool)> {
         node.state == NodeState::Dirty,
     ))
 }
+
+/// The [`NodeHandle`] of the node behind a signal or memo handle (alive or not).
+pub fn handle_of<T>(signal: crate::ReadSignal<T>) -> NodeHandle {
+    NodeHandle(signal.id, Root::global())
+}
